@@ -247,9 +247,9 @@ def c16(rng, qk):
 # --------------------------------------------------------------------------- C17
 def c17(rng, qk):
     s, cap, mx, bounded = _base(rng, qk, grace=0, soft=rng.choice([1, 2, 4]), hard=8, ring=rng.choice([1, 2]))
-    for i in range(3):
+    for i in range(4):
         s.sink(f"S{i}")
-    sinksets = [["S0"], ["S0", "S1"], ["S1"], ["S2"], ["S1", "S2"]]
+    sinksets = [["S0"], ["S0", "S1"], ["S1"], ["S2"], ["S1", "S2"], ["S3"], ["S0", "S3"]]
     live = {}
     for n in ("L0", "L1", "L2"):
         live[n] = rng.choice(sinksets)
@@ -294,7 +294,28 @@ def c17(rng, qk):
                 x = rng.choice(cand)
                 s.dropped = getattr(s, "dropped", set()) | {x}
                 s.op(f"dropsink {x}")
-        elif r < 0.72 and len(live) > 1:
+        elif r < 0.71:
+            s.op(f"getsink {rng.choice(s.sinks)}")         # lookup by name must find the live object
+        elif r < 0.74 and len(live) > 2:
+            # two loggers invalidated in one clean-up pass, and a statement logged through the second one (then removed) while
+            # the backend is between the per-logger emptiness checks of that pass
+            names = sorted(live)
+            a, b = names[0], names[1]
+            for t in sorted(s.alive):
+                s.op(f"T {t} go")
+            s.op("B drain")
+            s.op(f"remove {a}")
+            del live[a]
+            s.op("B pollg")
+            s.op(f"B until:LOGGER_ITER:{b}")               # logger a has been checked (and freed); parked at the iteration for b
+            s.log(rng.choice(sorted(s.alive)), b, pad=rng.randint(0, 12))
+            s.op(f"remove {b}")
+            del live[b]
+            s.op("B until:-")
+            s.op("B drain")
+            s.op("B poll")
+            s.op("q loggers")
+        elif r < 0.77 and len(live) > 1:
             # log + remove inside the window of an idle poll (between its emptiness check and its clean-up steps)
             n = rng.choice(sorted(live))
             for t in sorted(s.alive):
@@ -311,13 +332,13 @@ def c17(rng, qk):
             s.op("B drain")
             s.op("B poll")
             s.op("q loggers")
-        elif r < 0.76 and live:
+        elif r < 0.80 and live:
             n = rng.choice(sorted(live))
             if set(live[n]) & getattr(s, "dropped", set()):
                 s.op(f"getlogger {n}")
             else:
                 s.op(f"logger {n} sinks={','.join(live[n])} lvl=0")       # create_or_get is idempotent
-        elif r < 0.80:
+        elif r < 0.84:
             s.op(f"T {rng.choice(sorted(s.alive))} go")
         else:
             s.backend_some(fine_prob=0.4)
